@@ -151,7 +151,8 @@ C13(C, X) ==
        (Over(X, s) /\ X.cause[s] \in {"success", "timeout", "critical"} /\ Kids(C, s) # {}) =>
            /\ \A d \in Desc(C, s) : X.nshut[d] = 1 /\ ~ShPending(X, d)
            /\ X.did[s]
-           /\ C.stmo[s] >= 0 => X.te[s] <= X.sdl[s]
+           \* bounded: shutdown_timeout, plus the unwinding of the handlers cancelled then
+           /\ C.stmo[s] >= 0 => X.te[s] <= X.sdl[s] + Max({C.scdur[d] : d \in Desc(C, s)} \cup {0})
   /\ \A k \in Nodes(C) \ {Root} :
        X.sh[k] # "none" => \A b \in Desc(C, C.parent[k]) : ~Live(X, b)
 
